@@ -27,7 +27,7 @@ STATE_MEASURE = 'distinct (exported path set, query kind, queried path) at proce
 PROBES = ['sibling-prefix-both-exported', 'introspect-intermediate-path', 'introspect-fails',
           'gmo-with-descendants', 'gmo-root', 'query-in-flight-across-export',
           'query-in-flight-across-unexport', 'call-to-unexported', 'unexport-then-reexport', 'same-instance-reexported', 'property-assigned-after-export',
-          'export-over-exported-path', 'export-call-raised', 'unexport-of-unexported-path', 'failed-export-fate-observed', 'failed-export-over-exported-path', 'exported-object-is-falsy', 'object-unexports-itself-from-a-call',
+          'export-over-exported-path', 'export-call-raised', 'unexport-of-unexported-path', 'failed-export-fate-observed', 'failed-export-over-exported-path', 'exported-object-is-falsy', 'object-unexports-itself-from-a-call', 'export-from-inside-setObjectHandler',
           'gmo-sibling-prefix-case']
 COMPONENTS = {
     'real': ['txdbus.objects.DBusObjectHandler (exportObject, unexportObject, getManagedObjects, '
@@ -167,7 +167,7 @@ def scenario(ctx):
         cs, klass = classes[ds.choose(len(classes))]
         vals = {}
 
-        def mk():
+        def mk(klass=klass, p=p, vals=vals, cs=cs):
             o = klass(p)
             for d in cs.all_ifaces():
                 for pn, ps, acc, em in d.props:
@@ -175,9 +175,30 @@ def scenario(ctx):
                     setattr(o, cs.attr(d.name, pn), pyv)
                     vals[(d.name, pn)] = (ps, ref, acc)
             return o
-        o = rig.call(mk)
+        # a container: when it is told that it has been exported (setObjectHandler) it exports
+        # its part, one level below, from inside that notification
+        kid_path = None
+        kids = [c for c in PATHS if c not in E and c not in uncertain and c != p and below(c, p)
+                and c.count('/') == (p.count('/') + (0 if p == '/' else 1))]
+        if p not in E and kids and ds.flag(0.12):
+            kid_path = kids[ds.choose(len(kids))]
+            kcs, kklass = classes[ds.choose(len(classes))]
+            kvals = {}
+            kid = rig.call(mk, kklass, kid_path, kvals, kcs)
+            base_klass = klass
+
+            def set_handler(self, handler, base_klass=base_klass):
+                base_klass.setObjectHandler(self, handler)
+                part, self._part = getattr(self, '_part', None), None
+                if handler is not None and part is not None:
+                    handler.exportObject(part)
+            klass = type('Container' + klass.__name__, (klass,), {'setObjectHandler': set_handler})
+            sim.probe('export-from-inside-setObjectHandler')
+        o = rig.call(mk, klass)
+        if kid_path is not None:
+            o._part = kid
         new_signals()
-        sim.log('op', 'export', p)
+        sim.log('op', 'export', p, kid_path)
         rig.call(cl.exportObject, o)
         if p in ever:
             sim.probe('unexport-then-reexport')
@@ -185,6 +206,14 @@ def scenario(ctx):
         E[p] = {'obj': o, 'cs': cs, 'vals': vals}
         epoch[0] += 1
         sigs = new_signals()
+        if kid_path is not None:
+            ever.add(kid_path)
+            E[kid_path] = {'obj': kid, 'cs': kcs, 'vals': kvals}
+            if len(sigs) != 2:
+                raise Violation('C16/announce', 'InterfacesAdded count',
+                                'export of a container and its part wrote %d signals' % len(sigs))
+            check_announce(sigs[:1], 'InterfacesAdded', kid_path, kcs)
+            sigs = sigs[1:]
         check_announce(sigs, 'InterfacesAdded', p, cs)
         if '/a/b' in E and '/a/bc' in E:
             sim.probe('sibling-prefix-both-exported')
